@@ -174,6 +174,16 @@ CLAIMED['C13'] = {
     'note': 'Bounded stand-in, labelled exploration, never counted as proved. Compiled libraries are not compared; a difference that needs a particular schedule may not show in two runs.',
     'technique': 'bounded execution of the compiler (two runs per build mode), generated text files compared (labelled bounded)',
 }
+CLAIMED['C15'] = {
+    'category': 'exploration',
+    'text': 'Bounded and partial, on the modules emitted for the probe theories with enum types: after every close() in every explored history every element of an enum type destructures '
+            'into at least one constructor case (<enum>_case cannot panic), <enum>_cases lists exactly the constructor applications equal to the element, and new_<enum>(Case) returns the '
+            'value of that constructor application (existing or fresh). The static half (no accepted rule can make a non-constructor term defined in an enum type) is a Datalog check evaluated '
+            'by generated code and is not covered.',
+    'design_ref': '§6 C15',
+    'note': 'Bounded stand-in, labelled exploration, never counted as proved. Two enum probes.',
+    'technique': 'bounded native execution of executable contracts of the generated enum API on emitted probe modules (labelled bounded)',
+}
 CLAIMED['C19'] = {
     'category': 'exploration',
     'text': 'Bounded: the compiler built from the current tree compiles the probe theories as single modules and as modules plus one component library per rule; the generated harness is '
@@ -200,7 +210,6 @@ NOT_APPLICABLE = {
     'C02': 'needs the denotation of generated rule functions and define_*; not expressible as a contract within reach (DESIGN §6)',
     'C10': 'the static checks are ~300 eqlog rules interpreted by generated code; there is no Rust function whose contract is the reference semantics',
     'C12': 'state is a directory tree mutated through std::fs and a rustc child process, quantified over crash points; every callee is external',
-    'C15': 'couples a Datalog check, the emitted define_* set and <enum>_cases iterator chains; none within reach',
     'C17': 'recompute_model_indices is generated loop code over iter_restrictions_mut/LazyCell/mapped; its runtime ingredients are covered under C08/C18',
     # not yet built (will move to CLAIMED as units land)
 }
